@@ -313,7 +313,8 @@ func c08TokenShapes(src []byte) []c08Shape {
 		case pn >= 0 && toks[pn].tok == token.PERIOD:
 			// `foo.\n// c\nbar`: a comment between the period of a selector and the selected name
 			add("comment-after-selector-period", i)
-		case pn >= 0 && nn >= 0 && toks[nn].tok == token.RBRACK && lastEltIsEllipsis(pn):
+		case pn >= 0 && nn >= 0 && toks[nn].tok == token.RBRACK && (lastEltIsEllipsis(pn) ||
+			toks[pn].tok == token.COMMA && prevNC[pn] >= 0 && lastEltIsEllipsis(prevNC[pn])):
 			// `[1, ...T // c\n]`: a comment after the ellipsis element of a list
 			add("comment-after-list-ellipsis", i)
 		case pn >= 0 && nn >= 0 && (toks[nn].tok == token.RBRACE || toks[nn].tok == token.RBRACK) && gapNL(i, nn) &&
